@@ -5,7 +5,8 @@ real `loader + app + write_seqs` pipeline on a real DataStoreDirectory:
   run 1 (store opened in mode "w") in a forked child, interrupted either by KeyboardInterrupt
         raised from the k-th data_store.write / write_not_completed before it does anything, or
         by os._exit at the k-th file-system boundary inside the output directory (audit events +
-        write/close of the files the store opens; every boundary of the whole run is used);
+        write/close of the files the store opens; every boundary of the whole run is used), or by
+        an OSError raised by that k-th call (a failing close loses the unflushed data) which aborts apply_to;
   run 2 (same store opened in mode "a", the documented append-only way to resume) in a fresh child.
 The store as found after run 1 / run 2 is projected per input to the record states of the spec
 (by comparison with the store an uninterrupted run leaves), the test app counts the inputs the
@@ -162,10 +163,12 @@ def scenario(job):
                     "events": [(e["role"], e["raw"]) for e in ev1], "calls1": read_calls(c1), "ref": store_snapshot(outdir, store)}
         if kind == "soft":
             st1, ev1, end1 = faults.run_in_child(o, outdir, 0, "dry", root / "log1", pipeline_action(indir, outdir, "w", fail_ids, c1, k, store), timeout=120)
+        elif kind == "fault":
+            st1, ev1, end1 = faults.run_in_child(o, outdir, k, "fault", root / "log1", pipeline_action(indir, outdir, "w", fail_ids, c1, None, store), timeout=120, variant=job[7])
         else:
             st1, ev1, end1 = faults.run_in_child(o, outdir, k, "kill", root / "log1", pipeline_action(indir, outdir, "w", fail_ids, c1, None, store), timeout=120)
         at = store_snapshot(outdir, store)
-        where = next((e["raw"] for e in ev1 if e["i"] == k), None) if kind == "kill" else f"store write #{k}"
+        where = next((e["raw"] for e in ev1 if e["i"] == k), None) if kind in ("kill", "fault") else f"store write #{k}"
         st2, ev2, end2 = faults.run_in_child(o, outdir, 0, "dry", root / "log2", pipeline_action(indir, outdir, "a", fail_ids, c2, None, store), timeout=120)
         return {"kind": kind, "k": k, "store": store, "fail_ids": fail_ids, "status1": st1, "end1": end1, "where": where, "at": at,
                 "status2": st2, "end2": end2, "calls1": read_calls(c1), "calls2": read_calls(c2), "final": store_snapshot(outdir, store)}
@@ -269,6 +272,9 @@ def check_resume(run, scratch: Path, models):
                 if run.tier == "quick" and ncs and not ("not_completed" in raw or any(f in raw for f in fail_ids)):
                     continue  # quick: with a failing input only the boundaries that differ from the all-complete run
                 jobs.append((indir, n, fail_ids, "kill", k, str(work), store))
+                # the same boundary as a handled failure: the call raises OSError, apply_to aborts, the store is re-run
+                role = ref["events"][k - 1][0]
+                jobs.append((indir, n, fail_ids, "fault", k, str(work), store, "ENOSPC:once" if role in ("write", "close") else "EIO:once"))
         results = pool.map(scenario, jobs, chunksize=1)
     refs = {(store, fail_ids): (ncs, ref) for store, ncs, fail_ids, ref in plans}
     observed = set()
@@ -330,7 +336,7 @@ def check_resume(run, scratch: Path, models):
             run.model_drift(f"resume outcome is not an outcome of the transcribed model: {store} {r['kind']}@{r['k']} {obs}")
         else:
             run.cov["traces_validated_against_impl"] += 1
-        if (r["kind"] == "kill" and (bad or r["k"] % 9 == 0)) or (store == "sqlite" and r["fail_ids"] and r["k"] == n):
+        if (r["kind"] in ("kill", "fault") and (bad or r["k"] % 9 == 0)) or (store == "sqlite" and r["fail_ids"] and r["k"] == n):
             run.sample({"resume": r["kind"], "store": store, "where": r["where"], "failing": list(r["fail_ids"]), "at": at, "reprocessed": calls2, "final": fin, "rerun_raised": raised}, limit=14 if store == "dir" else 18)
     bad_model = {o for o in outs if o[5] or any(not table[(a, (j + 1) in o[3], f, (j + 1) in o[1])] for j, (a, f) in enumerate(zip(o[2], o[4])))}
     # reproduction is required where the kill points are fully driven: the directory store (quick: without failing input)
@@ -344,6 +350,6 @@ def check_resume(run, scratch: Path, models):
         run.model_drift(f"resume counterexample of the transcribed model not reproduced on the real code: {m}")
     run.note("resume_scenarios", dict(stats))
     run.note("resume_boundaries_per_run", {f"{store}:{list(ncs)}": ref["nbound"] for store, ncs, _, ref in plans})
-    nsc = sum(v for k, v in stats.items() if k.endswith(":soft") or k.endswith(":kill"))
+    nsc = sum(v for k, v in stats.items() if k.endswith((":soft", ":kill", ":fault")))
     run.cov["evaluations"] += nsc
     run.cov["distinct_nontrivial"] += nsc
